@@ -29,7 +29,7 @@ import lib_format as L
 
 PROP = "C18"
 CHUNK = 120           # branches per generated function
-N_MODULES = 12
+N_MODULES = 8
 
 
 def make_params(tier, seed):
